@@ -1298,6 +1298,133 @@ pub fn drive(log: &mut Log) {
         let _ = std::fs::remove_file(&path);
         log.oblige("shared_cursor_two_readers");
     }
+
+    // ---------------- G: IndexedReader::from_file on unusual file names (the index is "<path>.fai", byte for byte):
+    // non-UTF-8 bytes, spaces, '#', '%', trailing dots, very long names; for the non-UTF-8 names a decoy index
+    // spelled with U+FFFD (different line width) lies next to the right one
+    {
+        use std::os::unix::ffi::OsStrExt;
+        let names: Vec<Vec<u8>> = vec![
+            b"g\xE9nome.fa".to_vec(),
+            b"\xff\xfe ref.fasta".to_vec(),
+            b"a b  c.fa".to_vec(),
+            b"x#y%z%20.fa".to_vec(),
+            b"dots...".to_vec(),
+            b".hidden".to_vec(),
+            { let mut v = vec![b'L'; 200]; v.extend_from_slice(b".fa"); v },
+            "g\u{FFFD}nome2\u{00E9}.fa".as_bytes().to_vec(),
+        ];
+        for (ni, name) in names.iter().enumerate() {
+            case += 1;
+            if !log.mine(case) {
+                continue;
+            }
+            let mut rng = Rng::new(seed, 27, case);
+            let t = 1 + ni % 2;
+            let recs = vec![
+                FRec { name: b"one".to_vec(), desc: vec![], seq: seq_of(&mut rng, 23 + ni), w: 5, t },
+                FRec { name: b"two".to_vec(), desc: b"d".to_vec(), seq: seq_of(&mut rng, 40), w: 7, t },
+            ];
+            let lay = layout(&recs, false);
+            if !log.begin("paths", file_cfg("file", &recs, &lay)) {
+                continue;
+            }
+            let dir = std::path::PathBuf::from(format!("{}.paths{}", log.opts.out, ni));
+            std::fs::create_dir_all(&dir).unwrap();
+            let fa = dir.join(std::ffi::OsStr::from_bytes(name));
+            let mut fai_name = name.clone();
+            fai_name.extend_from_slice(b".fai");
+            std::fs::write(&fa, &lay.file).unwrap();
+            std::fs::write(dir.join(std::ffi::OsStr::from_bytes(&fai_name)), lay.fai.as_bytes()).unwrap();
+            if std::str::from_utf8(name).is_err() {
+                // decoy: the lossy spelling of the index name, describing another layout
+                let lossy = format!("{}.fai", String::from_utf8_lossy(name));
+                let decoy_recs: Vec<FRec> = recs.iter().map(|r| FRec { w: r.w + 1, ..r.clone() }).collect();
+                std::fs::write(dir.join(lossy), layout(&decoy_recs, false).fai.as_bytes()).unwrap();
+                log.oblige("from_file_non_utf8_path");
+            }
+            let mut r: Option<FileRd> = None;
+            log.call("open", json!({"who": 0, "via": "from_file_odd_name"}), || {
+                let x = fasta::IndexedReader::from_file(&fa).unwrap();
+                let q = seqs_json(&x);
+                r = Some(x);
+                json!({"seqs": q})
+            });
+            if let Some(mut r) = r {
+                for (k, rec) in recs.iter().enumerate() {
+                    let len = rec.seq.len() as u64;
+                    fev_fetch(log, &mut r, 0, &rec.name, 0, len);
+                    fev_read(log, &mut r, 0, true);
+                    fev_fetch_rid(log, &mut r, 0, k, 3, len - 2);
+                    fev_read_iter(log, &mut r, 0, len as usize + 8);
+                }
+            }
+            let _ = std::fs::remove_dir_all(&dir);
+            log.oblige("from_file_unusual_path");
+        }
+    }
+
+    // ---------------- H: an index that promises far more than the file holds (2^63, u64::MAX, 10^6, 100 bases for a
+    // record of a few dozen): reading must end in an error (never a panic / abort); small valid fetches afterwards
+    // work on the same reader. Lengths travel as 4 limbs base 10^6, most significant first.
+    let limbs = |x: u128| -> Value { json!([(x / 1_000_000_000_000_000_000) as u64, ((x / 1_000_000_000_000) % 1_000_000) as u64,
+                                             ((x / 1_000_000) % 1_000_000) as u64, (x % 1_000_000) as u64]) };
+    let claims: [u64; 6] = [1u64 << 63, u64::MAX, 1_000_000, 100, (1u64 << 33) + 5, 1u64 << 32];
+    for (ci, &claim) in claims.iter().enumerate() {
+        for t in 1..=2usize {
+            case += 1;
+            if !log.mine(case) {
+                continue;
+            }
+            let mut rng = Rng::new(seed, 28, case);
+            let recs = vec![
+                FRec { name: b"ok".to_vec(), desc: vec![], seq: seq_of(&mut rng, 11), w: 4, t },
+                FRec { name: b"liar".to_vec(), desc: vec![], seq: seq_of(&mut rng, 37 + ci), w: [60usize, 5, 1][ci % 3], t },
+            ];
+            let lay = layout(&recs, false);
+            let real = recs[1].seq.len() as u64;
+            let fai = format!("ok\t11\t{}\t4\t{}\nliar\t{}\t{}\t{}\t{}\n", lay.offs[0], 4 + t, claim, lay.offs[1],
+                              recs[1].w, recs[1].w + t);
+            let cfg = json!({"cls": "lying", "file": bytes(&lay.file),
+                "claim": [limbs(11), limbs(claim as u128)],
+                "recs": recs.iter().map(|r| json!({"name": bytes(&r.name), "desc": bytes(&r.desc), "seq": bytes(&r.seq),
+                                                   "w": r.w, "t": r.t})).collect::<Vec<_>>()});
+            if !log.begin("lying", cfg) {
+                continue;
+            }
+            let mut rd: Option<fasta::IndexedReader<std::io::Cursor<Vec<u8>>>> = None;
+            log.call("open", json!({"who": 0}), || {
+                rd = Some(fasta::IndexedReader::new(std::io::Cursor::new(lay.file.clone()), fai.as_bytes()).unwrap());
+                json!({})
+            });
+            let mut rd = match rd {
+                Some(r) => r,
+                None => continue,
+            };
+            // (rid, start, stop; stop = None: fetch_all)
+            let plan: Vec<(usize, u64, Option<u64>)> = vec![
+                (1, 0, None), (1, 3, Some(claim)), (1, 0, Some(real)), (0, 2, Some(9)), (1, real - 1, Some(claim)),
+                (1, 5, Some(real + 1)), (1, 7, Some(20)), (0, 0, None), (1, real, Some(claim)), (1, 1, Some(real - 1)),
+            ];
+            for (pi, &(rid, start, stop)) in plan.iter().enumerate() {
+                match stop {
+                    None => {
+                        log.call("fetch_all_rid", json!({"who": 0, "rid": rid}), || json!({"ok": ok01(&rd.fetch_all_by_rid(rid))}));
+                    }
+                    Some(e) => {
+                        let e = e.max(start);
+                        log.call("fetch_big", json!({"who": 0, "rid": rid, "start": start, "stop": limbs(e as u128)}),
+                                 || json!({"ok": ok01(&rd.fetch_by_rid(rid, start, e))}));
+                    }
+                }
+                if pi % 2 == 0 { fev_read(log, &mut rd, 0, pi % 4 == 0) } else { fev_read_iter(log, &mut rd, 0, real as usize + 16) }
+            }
+            if claim >= (1u64 << 62) {
+                log.oblige("index_promises_more_than_the_file_holds_huge");
+            }
+            log.oblige("index_promises_more_than_the_file_holds");
+        }
+    }
 }
 
 fn main() {
